@@ -156,6 +156,27 @@ def gen_plan(rng, family):
                     th.append(["submit", "value"])
             plan["threads"].append(th)
         plan["final"] = "await"
+    elif family == "race":                      # C09: callers racing with identical arguments, the harness takes no lock
+        plan["reusable"] = True
+        plan["timeout"] = 10
+        plan["prelude"] = [["get", rng.choice([1, 2, 3]), 10, "auto", False]]
+        if rng.random() < 0.6:
+            plan["prelude"].append(["submit", rng.choice(["value", "long", "long"])])
+        args = ["rget", rng.choice([1, 2, 3]), rng.choice([10, 20, 20])]
+        for _ in range(rng.randint(1, 2)):
+            main.append(list(args))
+        for _ in range(rng.choice([1, 2, 2, 3])):
+            plan["threads"].append([list(args) for _ in range(rng.randint(1, 2))])
+        plan["final"] = "await"
+    elif family == "callback":                  # C04: done-callbacks that use the executor, run by whichever thread completes the future
+        kinds_cb = ["value", "raise", "sysexit", "badarg", "badarg", "hugearg", "hugearg", "badresult"]
+        for _ in range(n):
+            main.append([rng.choice(["submit_cb", "submit_cb", "submit"]), rng.choice(kinds_cb)])
+        if rng.random() < 0.3:
+            plan["threads"].append([[rng.choice(["submit_cb", "submit"]), rng.choice(kinds_cb)] for _ in range(rng.randint(1, 2))])
+        if rng.random() < 0.3:
+            main.insert(rng.randint(1, len(main)), ["cancel", rng.randrange(n)])
+        plan["final"] = "await+submit+shutdown"
     elif family == "saturate":                  # C08 delivered
         plan["workers"] = rng.choice([1, 2, 3])
         plan["timeout"] = rng.choice([None, 0.05, 0.05])
@@ -228,6 +249,21 @@ def make_program(plan):
                         ex = get_ex(env)
                     f = submit(env, ex, act[1])
                     env.notes.setdefault("order", []).append((tname, "submit", act[1], f is not None))
+                elif op == "submit_cb":
+                    ex = get_ex(env)
+                    f = submit(env, ex, act[1])
+                    if f is not None:
+                        def cb(fut, ex=ex):
+                            # a typical "submit a fallback when done" callback that then fails: loky runs it in the thread that
+                            # completes the future (manager, queue feeder, or the caller of cancel()) and must survive it
+                            f2 = submit(env, ex, "value")
+                            env.notes.setdefault("callbacks", []).append((getattr(env.kern.current, "role", "?"), f2 is not None))
+                            raise RuntimeError("callback failed")
+                        f.add_done_callback(cb)
+                elif op == "rget":
+                    ex = env.reusable(act[1], timeout=act[2])
+                    env.notes.setdefault("rgets", []).append((tname, ex.executor_id))
+                    env.notes.setdefault("rget_objs", []).append(ex)
                 elif op == "cancel":
                     tids = sorted(env.futs)
                     if tids:
@@ -326,6 +362,7 @@ def make_program(plan):
 
     def program(env):
         RUNNING_NOW.clear()
+        run_thread(env, plan.get("prelude", []), "u0")
         extra = []
         for i, acts in enumerate(plan["threads"][1:], 1):
             extra.append(env.spawn_user(f"u{i}", lambda a=acts, i=i: run_thread(env, a, f"u{i}")))
@@ -517,6 +554,10 @@ def analyze(plan, r):
         hang_props.append("C06")
     if fam in ("plain", "full", "timeout", "saturate") and not kills:
         hang_props += ["C04", "C03", "C08"]
+    if fam == "callback":
+        hang_props += ["C04"]
+    if fam == "race":
+        hang_props += ["C09"]
     # 1. crashes of loky's own threads / workers dying of a Python error.  A crash that leaves every
     #    future resolved and every API call returned violates none of the properties (it is kept in the
     #    hang signatures below); it is reported on its own only when the run did not end properly.
@@ -663,6 +704,18 @@ def analyze(plan, r):
                 if isinstance(c, tuple) and c[0] in BROKEN + ("ShutdownExecutorError",) and r.kinds[tid] != "sysexit" \
                         and not any(a[0] in ("break", "shutdown_cur") or (a[0] == "get" and a[4]) for th in plan["threads"] for a in th):
                     add(["C09"], "task-lost", f"factory-task-failed got[{c[0]}] ctx[{ctx}]", f"task {tid}")
+    # 9e. callers racing with identical arguments (C09): one instance for all of them, and only one live pool
+    if fam == "race" and ended:
+        ids = sorted({eid for _, eid in notes.get("rgets", [])})
+        cur = S.re_._executor
+        live = [rec["flags"] for rec in env.all_executors if not rec["flags"].shutdown and rec["flags"].broken is None]
+        if len(ids) > 1:
+            add(["C09"], "not-a-singleton", f"racing-callers-with-identical-arguments-got-different-executors n[{len(ids)}] ctx[{ctx}]",
+                str(notes.get("rgets")))
+        elif ids and (cur is None or cur.executor_id != ids[0]):
+            add(["C09"], "not-current", f"racing-callers-hold-an-executor-that-is-not-the-current-one ctx[{ctx}]", str(notes.get("rgets")))
+        if len(live) > 1:
+            add(["C09"], "several-live-pools", f"several-live-reusable-pools n[{len(live)}] ctx[{ctx}]", str(notes.get("rgets")))
     # 9d. the manager's real call order vs the operation lists generated from the source (ties tr/units.py:gen_ledger to the runtime)
     if not crashes:
         for fn, got, want in manager_op_anomalies(r, env):
